@@ -270,6 +270,17 @@ def tickSndOne (cfg : Cfg) (now : Nat) (buf : Snd) : Option Snd × List Out × O
     else (none, [], none, none, .none)
   else (some buf, [], none, none, .none)
 
+/-- the table after one record was handled: replaced or deleted -/
+def sndApply (s : St) (k : Nat) : Option Snd → St
+  | some b => { s with snd := s.snd.set k b }
+  | none => { s with snd := s.snd.erase k }
+
+/-- `__put_*_session`: none = IndexError -/
+def release (s1 : St) : Release → Option St
+  | .none => some s1
+  | .rts i => (poolPut s1.rtsPool i).map (fun p => { s1 with rtsPool := p })
+  | .bam i => (poolPut s1.bamPool i).map (fun p => { s1 with bamPool := p })
+
 def tickSnd (cfg : Cfg) (now : Nat) : List Nat → St → Nat → List Out → St × Nat × List Out × Option PyErr
   | [], s, nw, o => (s, nw, o, none)
   | k :: ks, s, nw, o =>
@@ -277,17 +288,11 @@ def tickSnd (cfg : Cfg) (now : Nat) : List Nat → St → Nat → List Out → S
     | none => (s, nw, o, some .KeyError)
     | some buf =>
       let r := tickSndOne cfg now buf
-      let s1 := match r.1 with
-        | some b => { s with snd := s.snd.set k b }
-        | none => { s with snd := s.snd.erase k }
+      let s1 := sndApply s k r.1
       match r.2.2.1 with
       | some err => (s1, nw, o ++ r.2.1, some err)
       | none =>
-        let rel : Option St := match r.2.2.2.2 with
-          | .none => some s1
-          | .rts i => (poolPut s1.rtsPool i).map (fun p => { s1 with rtsPool := p })
-          | .bam i => (poolPut s1.bamPool i).map (fun p => { s1 with bamPool := p })
-        match rel with
+        match release s1 r.2.2.2.2 with
         | none => (s1, nw, o ++ r.2.1, some .IndexError)
         | some s2 =>
           tickSnd cfg now ks s2 (match r.2.2.2.1 with | some d => if nw > d then d else nw | none => nw) (o ++ r.2.1)
